@@ -928,8 +928,8 @@ def _make_exprlike_fst(  # TODO: this needs a refactor, cleanup and simplificati
 
         else:  # src does not have grouping pars
             if ((tgt_has_pars := tgt_is_FST and getattr(target.pars(), 'n', 0))
-                and put_fst.is_parenthesized_tuple() is False
-            ):
+                and (put_is_star or put_fst.is_parenthesized_tuple() is False)
+            ):  # Starred and unparenthesized Tuple can never be inside grouping pars, so tgt pars always go and if pars are needed they are put on Starred.value or Tuple is delimited below
                 del_tgt_pars = True
                 tgt_has_pars = False
 
